@@ -133,6 +133,8 @@ def p_numeric(c):
 
 def p_whitespace(c):
     if isinstance(c, int):
+        if c == 0xFFFD:
+            return False        # the replacement character from_utf8_lossy produces: not White_Space (concrete, outside the alphabet)
         return c in (9, 10, 11, 12, 13, 32) if c < 128 else bool(_native(c, 'ws'))
     _need('ws')
     return _apply('ws', lambda x: z3.Or([z3.And(x >= 9, x <= 13), x == 32] + _table(x, 'ws')), c)
